@@ -962,8 +962,9 @@ pub fn run(ctx: &Ctx) -> i32 {
         ("C13", Tier::Quick) => ctx.scaled(if ctx.flavour == "checked" { 200 } else { 400 }),
         ("C13", Tier::Thorough) => ctx.scaled(3000),
         ("C01", Tier::Quick) => ctx.scaled(90),
-        // 18 million signatures: an honest signing call that gives up is a 10^-6 event (rejection loops of > 60 rounds)
-        ("C01", Tier::Thorough) => ctx.scaled(45_000),
+        // 1.8 million signatures (18 million were tried once: 65 min, clean): an honest signing call that gives up
+        // after 64 rounds is a 10^-6 event on ML-DSA-65 and stays below the volume of this tier
+        ("C01", Tier::Thorough) => ctx.scaled(4_500),
         _ => 0,
     };
     // degenerate stored keys: 12 signatures per history
